@@ -12,6 +12,7 @@ import (
 // C07.e: the executor operations have the idempotent semantics the replay
 // model (an/reapmodel.go, an/planfs.go) assumes.
 func c07Executor(c *core.Ctx) {
+	c07CopyFileTable(c, "C07.e")
 	retErr := func(idx int) func(*ssa.Return, func(ssa.Value) ssa.Value) string {
 		return func(r *ssa.Return, resolve func(ssa.Value) ssa.Value) string {
 			v := resolve(r.Results[idx])
@@ -301,4 +302,82 @@ func selectCaseBlock(sel *ssa.Select, idx int) *ssa.BasicBlock {
 		}
 	}
 	return out
+}
+
+// c07CopyFileTable: Executor.CopyFile makes dst an independent copy of src and
+// is idempotent: src gone and dst present is success. Every file-system call it
+// makes is part of the table, so a shortcut such as a hard link (which makes
+// src and dst one inode — replaying the copy then truncates both) is a mismatch.
+func c07CopyFileTable(c *core.Ctx, clause string) {
+	fn := c.Fn(clause, "snapshot/plan", "(*Executor).CopyFile")
+	if fn == nil {
+		return
+	}
+	fsCall := func(in ssa.Instruction) (string, bool) {
+		var ci ssa.CallInstruction
+		switch x := in.(type) {
+		case *ssa.Call:
+			ci = x
+		default:
+			return "", false
+		}
+		id := an.CalleeID(ci)
+		switch {
+		case id == "io.Copy" || id == "io.CopyN" || id == "io.CopyBuffer":
+			return "copy", true
+		case len(id) > 3 && id[:3] == "os." && id != "os.IsNotExist" && id != "os.IsExist":
+			return id, true
+		case id == "internal/fsutil.CopyFile":
+			return id, true
+		}
+		return "", false
+	}
+	spec := an.DecideSpec{Fn: fn,
+		Vars: []an.Var{an.Bool("openOK"), an.Bool("notExist"), an.Bool("dstExists"), an.Bool("statOK"), an.Bool("createOK"), an.Bool("copyOK")},
+		Conds: []an.CondMatcher{
+			an.NilCond("openOK", func(v ssa.Value) bool { return callResult(v, 1, "os.Open") }),
+			boolOf("notExist", -1, "os.IsNotExist"),
+			an.NilCond("dstExists", func(v ssa.Value) bool { return callResult(v, 1, "os.Stat") }),
+			an.NilCond("statOK", func(v ssa.Value) bool { return callResult(v, 1, "os.File.Stat") }),
+			an.NilCond("createOK", func(v ssa.Value) bool { return callResult(v, 1, "os.OpenFile") }),
+			an.NilCond("copyOK", func(v ssa.Value) bool { return callResult(v, 1, "io.Copy") }),
+		},
+		Effect: fsCall,
+		Ret: func(r *ssa.Return, resolve func(ssa.Value) ssa.Value) string {
+			v := resolve(r.Results[0])
+			if an.IsNilConst(v) {
+				return "nil"
+			}
+			if call, ok := v.(*ssa.Call); ok && an.IsCall(call, "os.File.Sync") {
+				return "sync"
+			}
+			return "err"
+		},
+		Ref: func(v an.Val) string {
+			switch {
+			case v["openOK"] == 0 && v["notExist"] == 1 && v["dstExists"] == 1:
+				return "os.Open;os.Stat => nil"
+			case v["openOK"] == 0 && v["notExist"] == 1:
+				return "os.Open;os.Stat => err"
+			case v["openOK"] == 0:
+				return "os.Open => err"
+			case v["statOK"] == 0:
+				return "os.Open;os.File.Stat => err"
+			case v["createOK"] == 0:
+				return "os.Open;os.File.Stat;os.OpenFile => err"
+			case v["copyOK"] == 0:
+				return "os.Open;os.File.Stat;os.OpenFile;copy => err"
+			}
+			return "os.Open;os.File.Stat;os.OpenFile;copy;os.File.Sync => sync"
+		}}
+	reportDecide(c, clause, "(*Executor).CopyFile", c.P.Pos(fn.Pos()), an.Decide(spec, c.P.Pos))
+	// the destination is created/truncated as its own file with the source's mode
+	ok := false
+	for _, call := range an.CallsTo(fn, false, "os.OpenFile") {
+		a := call.Common().Args
+		flags, isK := an.ConstInt(a[1])
+		ok = an.Unwrap(a[0]) == ssa.Value(fn.Params[2]) && isK && flags&0x40 != 0 && flags&0x200 != 0 // O_CREATE|O_TRUNC
+	}
+	c.Result(ok, clause, "CONST", "(*Executor).CopyFile:dst-own-file", c.P.Pos(fn.Pos()), "dst is created and truncated as a file of its own",
+		"Executor.CopyFile does not create/truncate dst as its own file", nil)
 }
